@@ -15,6 +15,9 @@ pub enum Body {
     Compressed { payload: Vec<u8>, level: u32 },
     /// raw bytes that do not start with "BZ"
     Plain(Vec<u8>),
+    /// raw bytes that start with "BZ" without being a bzip2 stream ("BZ" alone, "BZ" + anything):
+    /// the statement makes the two magic bytes the whole criterion
+    BzMarked(Vec<u8>),
 }
 
 #[derive(Clone)]
@@ -86,7 +89,19 @@ pub fn gen_container(rng: &mut Rng, max_payload: usize) -> ContainerSpec {
     };
     let bodies = (0..nrec)
         .map(|_| {
-            let body = if rng.chance(4, 5) {
+            let body = if rng.chance(1, 8) {
+                let mut raw = b"BZ".to_vec();
+                match rng.below(4) {
+                    0 => {}
+                    1 => raw.push(*rng.pick(&[b'H', b'i', b'0', 0, 0xFF, b'g'])),
+                    2 => {
+                        raw.push(b'h');
+                        raw.extend_from_slice(&rng.bytes(rng.clone().usize_below(40)));
+                    }
+                    _ => raw.extend_from_slice(&rng.bytes(rng.clone().urange(1, 600))),
+                }
+                Body::BzMarked(raw)
+            } else if rng.chance(4, 5) {
                 Body::Compressed {
                     payload: gen_payload(rng, max_payload),
                     level: rng.range(1, 9) as u32,
@@ -111,7 +126,7 @@ impl ContainerSpec {
         for (b, neg) in &self.bodies {
             let body = match b {
                 Body::Compressed { payload, level } => enc::bzip2_compress(payload, *level),
-                Body::Plain(raw) => raw.clone(),
+                Body::Plain(raw) | Body::BzMarked(raw) => raw.clone(),
             };
             let r = enc::ldm_record(&body, *neg && !body.is_empty());
             f.extend_from_slice(&r);
@@ -133,6 +148,7 @@ pub fn check_container(obs: &mut Obs, spec: &ContainerSpec, case_index: u64) {
         let (k, n) = match b {
             Body::Compressed { payload, .. } => (1u64, payload.len()),
             Body::Plain(r) => (2u64, r.len()),
+            Body::BzMarked(r) => (3u64, r.len()),
         };
         let cls = match n {
             0 => 0u64,
@@ -285,6 +301,24 @@ pub fn check_container(obs: &mut Obs, spec: &ContainerSpec, case_index: u64) {
                     Ok(Err(_)) => obs.count("decoding_compressed_record_is_error", 1),
                     Ok(Ok(_)) => obs.violation("messages() on a compressed record is not an error", format!("record {}", i), replay.clone()),
                     Err(p) => obs.violation(format!("messages {}", p.signature()), p.message, replay.clone()),
+                }
+            }
+            Body::BzMarked(_) => {
+                // compressed() was already required to be true above (magic follows the prefix);
+                // decoding a record that reports itself compressed is an error, and whatever
+                // decompress() makes of the body it must not panic
+                if !want_compressed {
+                    obs.violation("harness: BZ-marked body without BZ magic", "", replay.clone());
+                    continue;
+                }
+                obs.count("bz_marked_non_bzip2_bodies_reported_compressed", 1);
+                match mon::catch(|| r.messages()) {
+                    Ok(Err(_)) => obs.count("decoding_compressed_record_is_error", 1),
+                    Ok(Ok(_)) => obs.violation("messages() on a compressed record is not an error", format!("record {} (BZ-marked body)", i), replay.clone()),
+                    Err(p) => obs.violation(format!("messages {}", p.signature()), p.message, replay.clone()),
+                }
+                if let Err(p) = mon::catch(|| r.decompress().is_ok()) {
+                    obs.violation(format!("decompress {}", p.signature()), p.message, replay.clone());
                 }
             }
             Body::Plain(_) => {
